@@ -49,13 +49,14 @@ RunsFrom(row, i, col, len, acc) ==
   ELSE RunsFrom(row, i + 1, 1 - col, 1, Append(acc, len))
 RLE(row) == RunsFrom(row, 1, 0, 0, <<>>)
 
-\* the image row (as run lengths) that shows module row k (1-based); k = 0: a row outside the symbol area
-ImageRow(mods, nw, g, k) ==
-  RLE([x \in 1..g.ow |-> LET mx == ModuleAt(x - 1, g.px, g.sx, nw) IN IF k = 0 \/ mx < 0 THEN 0 ELSE mods[k][mx + 1]])
+\* the image row (as run lengths) that shows module row k (1-based); k = 0: a row outside the symbol area.
+\* cols[x] = module column under pixel column x-1 (ColumnMap), the same for every row of one image
+ColumnMap(nw, g) == [x \in 1..g.ow |-> ModuleAt(x - 1, g.px, g.sx, nw)]
+ImageRow(mods, cols, k) == RLE([x \in 1..Len(cols) |-> IF k = 0 \/ cols[x] < 0 THEN 0 ELSE mods[k][cols[x] + 1]])
 RowKey(g, nh, y) == ModuleAt(y, g.py, g.sy, nh) + 1
 
 \* quiet zone documented for a writer when no margin is configured: ISO 18004 asks for 4 modules around a QR symbol;
 \* ZXing's 1-D writers reserve 10 modules in total, the UPC/EAN family 9
 DefaultMargin(fmt) == IF fmt = "QR_CODE" THEN 4 ELSE IF fmt \in {"EAN_8", "EAN_13", "UPC_A", "UPC_E"} THEN 9 ELSE 10
-ClassOf(fmt) == IF fmt = "QR_CODE" THEN "qr" ELSE IF fmt = "DATA_MATRIX" THEN "dm" ELSE "1d"
+ClassOf(fmt) == IF fmt = "QR_CODE" THEN "qr" ELSE IF fmt \in {"DATA_MATRIX", "DATA_MATRIX_RECT"} THEN "dm" ELSE "1d"
 =============================================================================
